@@ -255,6 +255,28 @@ func genfs(c *harness.Ctx) {
 	if ref == nil {
 		return
 	}
+	// a user's non-empty directory sitting exactly where the generator will want to write a file: it may refuse
+	// to generate, it must not clear the way
+	collision := ""
+	if c.Choose(6, "collide") == 5 {
+		var gen []string
+		for p := range ref {
+			if strings.HasSuffix(p, suffix) {
+				gen = append(gen, p)
+			}
+		}
+		sort.Strings(gen)
+		if len(gen) > 0 {
+			collision = gen[c.Choose(len(gen), "collide-at")]
+			os.MkdirAll(filepath.Join(target, collision), 0755)
+			os.WriteFile(filepath.Join(target, collision, "notes.txt"), []byte("user notes in "+collision), 0644)
+			desc = append(desc, "target/"+collision+"/notes.txt")
+			if targetMode == 1 {
+				targetMode = 0
+			}
+			c.Probe("user-directory-at-a-generated-file-path")
+		}
+	}
 	preFiles, _ := readTree(root)
 	foreign := map[string][]byte{}
 	for p, d := range preFiles {
@@ -346,6 +368,11 @@ func genfs(c *harness.Ctx) {
 				return
 			}
 			continue // the workload goes on after the "restart"
+		}
+		if r.exit != 0 && !r.fired && collision != "" && op == "gen" {
+			// it cannot write there without destroying what the user keeps there: refusing is right
+			c.Probe("generation-refused-over-user-directory")
+			continue
 		}
 		if r.exit != 0 && !r.fired {
 			c.Fail("C20", "undisturbed-op-failed", "undisturbed-op-failed:"+op+":"+errClass(r.stderr), "%s: an operation without injected fault failed: %s (%s)", when, strings.TrimSpace(r.stderr), workload)
